@@ -256,6 +256,7 @@ def junk_line(draw, live_ids):
         return draw(st.sampled_from(["", "", " ", "\t", "   "]))
     if k == 5:   # server-level no-ops and garbage that only yields a '>' notice
         return draw(st.sampled_from(["-1 D", "-1 N host", "-1 d", "-1 P :pw", "-1 U a :b", "-1 u x", "-1 n x", "-1 H", "-1 T",
+                                     "-1 E oops :I am 100% sure %s%s%n %d this is an error", "-1 M irc%s.example.org %n",
                                      "-1 M irc.example.org 1024", "-1 E type :info text", "%s E type :info" % anyid]))
     if k == 6:   # data commands without their parameter, for a live id
         lid = draw(st.sampled_from([str(i) for i in live_ids] or ["900"]))
@@ -407,7 +408,8 @@ RULE_FIELDS = {
     "address": ["10.0.0.0/8", "10.1.0.0/16", "127.*", "2001:db8::/32", "*"],
     "trust_username": ["true", "false"],
 }
-C17_SVCS = ["login.ex", "bot.ex", "comb.ex", "ipr.ex", "extra.ex", "Auth.Ex", "Checker.ex", "ZED.EX"]     # configuration order ignores case
+C17_SVCS = ["login.ex", "bot.ex", "comb.ex", "ipr.ex", "extra.ex", "Auth.Ex", "Checker.ex", "ZED.EX",     # configuration order ignores case
+            "login.ex.uk", "bot"]                                                                      # a name may be a prefix of another
 C17_RULES = ["r1", "r2", "R3", "alpha", "Beta", "zz"]
 
 
@@ -433,7 +435,10 @@ def c17_tables_s(draw):
 
 
 EDITS = ["add_svc", "del_svc", "proto_inplace", "add_rule", "del_rule", "rule_field_inplace", "rule_add_criterion", "rule_del_criterion", "noop",
-         "del_svc", "add_svc", "proto_inplace", "rule_field_inplace", "rule_field_case", "rule_field_case", "empty_tables"]
+         "del_svc", "add_svc", "proto_inplace", "rule_field_inplace", "rule_field_case", "rule_field_case", "empty_tables", "omit_section"]
+
+
+OMIT = set()      # sections the file produced by the current edit leaves out (filled by apply_edit, read by c17_s)
 
 
 def apply_edit(draw, services, rules):
@@ -471,6 +476,14 @@ def apply_edit(draw, services, rules):
         if ks:
             k = draw(st.sampled_from(sorted(ks)))
             r[1][k] = r[1][k].swapcase() if draw(st.booleans()) else r[1][k].capitalize()
+    elif kind == "omit_section":
+        # the new file does not mention the section at all (same meaning as an empty one)
+        if draw(st.booleans()):
+            services = []
+            OMIT.add("iauth_xquery")
+        else:
+            rules = []
+            OMIT.add("iauth_class")
     elif kind == "empty_tables":
         # the sections stay in the file but become completely empty
         if draw(st.booleans()):
@@ -496,10 +509,13 @@ def c17_s(draw, pid, tier, opts=None):
     steps = []
     cur_s, cur_r = services, rules
     kinds = []
+    omits = []
     for _ in range(draw(st.sampled_from([1, 1, 1, 2, 2, 3]))):
+        OMIT.clear()
         k, cur_s, cur_r = apply_edit(draw, cur_s, cur_r)
         kinds.append(k)
         steps.append([cur_s, cur_r])
+        omits.append(sorted(OMIT))
     full = draw(st.integers(0, 11)) == 0
     if full:
         # a service table at (or just below) its capacity of 32 entries: renaming an entry, or dropping some and adding
@@ -522,6 +538,10 @@ def c17_s(draw, pid, tier, opts=None):
             steps, kinds = [[s1, rules], [s2, rules]], ["del_svc_full_table", "add_svc_full_table"]
     mk = lambda s, r: {"modules": ["iauth_class", "iauth_xquery"], "services": s, "rules": r, "timeout": 0, "logs": [["*.>=info", "file:iauthd.log"]]}
     confs = [mk(services, rules)] + [mk(s, r) for s, r in steps]
+    if not full:
+        for c_, om in zip(confs[1:], omits):
+            if om and not (("iauth_xquery" in om and c_["services"]) or ("iauth_class" in om and c_["rules"])):
+                c_["omit_sections"] = om
     if draw(st.integers(0, 5)) == 0:
         # the new file also spells the (same) set of modules differently: another order, or a module named twice
         for c_ in confs[draw(st.integers(1, len(confs) - 1)):]:
